@@ -20,6 +20,7 @@ import (
 	"verif/internal/kf"
 	m "verif/internal/model"
 	"verif/internal/oracle"
+	"verif/internal/pipeline"
 	"verif/internal/protoparse"
 	"verif/internal/rt"
 	"verif/internal/stats"
@@ -238,13 +239,40 @@ type caseRec struct {
 func TestGRPC(t *testing.T) {
 	n := rt.EnvInt("VERIF_CHECKS", 8)
 	seed := rt.EnvInt("VERIF_SEED", 1)
-	sess, built := rt.Prepare(t, "c10", rt.Options{Profile: gen.GRPCProfile(), N: n, Seed: seed, Generate: generate})
+	// A design whose generation stops because protoc (here: the stand-in, which
+	// parses the file as proto3 and validates it with the protobuf runtime)
+	// refuses the generated protocol buffer file is this property's subject.
+	var skipMu sync.Mutex
+	protoFailures := 0
+	onSkip := func(d *m.Design, out *pipeline.Outcome) {
+		if out.Failure != "gen-error" || !strings.Contains(out.Detail, "protoc") {
+			return
+		}
+		if len(gen.MatchQuirks(d, out.Sig)) > 0 {
+			return
+		}
+		skipMu.Lock()
+		defer skipMu.Unlock()
+		protoFailures++
+		dir := os.Getenv("VERIF_REPLAY_OUT")
+		if dir == "" {
+			dir = filepath.Join(os.TempDir(), "verif-replay")
+		}
+		dir = filepath.Join(dir, out.Run.Name+"_protoc")
+		_ = out.Run.SaveReplay(dir, map[string][]byte{"diagnostics.txt": []byte(out.Detail)})
+		stats.CaseSample("protoc-refused|"+out.Run.Name, true, map[string]any{"design": out.Run.Name, "kind": "proto-file-refused", "detail": firstLines(out.Detail, 6)})
+		fmt.Printf("C10 generated protocol buffer file refused by protoc (design saved: %s):\n%s\n", dir, firstLines(out.Detail, 12))
+	}
+	sess, built := rt.Prepare(t, "c10", rt.Options{Profile: gen.GRPCProfile(), N: n, Seed: seed, Generate: generate, Extra: []*m.Design{gen.GRPCMatrix()}, OnSkip: onSkip})
 	defer sess.Close()
 	defer rt.CloseAll(built)
-	if len(built) == 0 {
+	if protoFailures > 0 {
+		t.Errorf("%d generated protocol buffer file(s) refused by protoc", protoFailures)
+	}
+	if len(built) == 0 && protoFailures == 0 {
 		t.Fatalf("INCONCLUSIVE: no design could be built")
 	}
-	if len(built)*2 < n && rt.ReplayDir() == "" {
+	if len(built)*2 < n && rt.ReplayDir() == "" && protoFailures == 0 {
 		t.Fatalf("INCONCLUSIVE: only %d of %d designs could be built (generator health)", len(built), n)
 	}
 	var wg sync.WaitGroup
